@@ -803,6 +803,16 @@ func (p *Provider) reserveIANA(addr net.IP, duid []byte, iaid uint32, sessionID,
 		return fmt.Errorf("address %s already leased to session %s", addrKey, existing.SessionID)
 	}
 
+	// The resolver names the pool only in the call that takes the address from
+	// it. Re-reserving the same address for the same session must not forget the
+	// name: ReleaseLease gives the address back to the registry only when it
+	// knows the pool.
+	if poolName == "" {
+		if old := p.ianaLeases[duidKey]; old != nil && old.SessionID == sessionID && old.Address.Equal(addr) {
+			poolName = old.PoolName
+		}
+	}
+
 	lease := &IANALease{
 		Address:       dupIP(addr),
 		DUID:          duid,
@@ -824,6 +834,12 @@ func (p *Provider) reservePD(prefix *net.IPNet, duid []byte, iaid uint32, sessio
 
 	if existing, exists := p.leasesByPfx[pfxKey]; exists && existing.SessionID != sessionID {
 		return fmt.Errorf("prefix %s already leased to session %s", pfxKey, existing.SessionID)
+	}
+
+	if poolName == "" {
+		if old := p.pdLeases[duidKey]; old != nil && old.SessionID == sessionID && old.Prefix.String() == pfxKey {
+			poolName = old.PoolName
+		}
 	}
 
 	lease := &PDLease{
